@@ -105,6 +105,11 @@ fn find_formula(tree: &Program) -> Option<Factor> {
   None
 }
 
+/// s-expression of the first formula of a program, or why there is none
+pub fn tree_of(src: &str) -> String {
+  match parse_code(src) { Ok(t) => match find_formula(&t) { Some(f) => sexpr(&f), None => "noformula".into() }, Err(e) => format!("noparse:{}", e) }
+}
+
 pub fn source(case: &str) -> String {
   let f: Vec<&str> = case.split('\t').collect();
   let mut s = String::new();
